@@ -209,21 +209,26 @@ def sigParams (args : List Arg) (defaults : List (Option Expr)) : Dict :=
   let ds := padDefaults args.length defaults
   args.zipIdx.map (fun (a, i) => funcArg2Param a (ds[i]?.join))
 
+/-- `if "typ" in rt and "[" not in rt["typ"]: del rt["typ"]` -/
+def dropPlainTyp (rt : Param) : Param :=
+  match rt.typ with
+  | some t => if hasChar t '[' then rt else { rt with typ := none }
+  | none => rt
+
+/-- the `default` `_interpolate_return` derives from the returned expression -/
+def returnDefault (e : Expr) : DVal :=
+  let src := e.text
+  let isTuple := match e with | .code _ t => t | _ => false
+  if isTuple && (!startsWith src "(" || !endsWith src ")") then .val (.str ("(" ++ src ++ ")"))
+  else match getValue e with
+    | .val d => .val d
+    | .node _ => .val (.str ("```" ++ src ++ "```"))
+
 /-- `_interpolate_return` -/
 def interpolateReturn (body : List Stmt) (annot : Option String) (returns : Option Param) : Option Param :=
   let returns :=
     match (body.reverse.filterMap Stmt.returnExpr?).head? with
-    | some e =>
-      let rt := returns.getD {}
-      let rt := match rt.typ with | some t => if hasChar t '[' then rt else { rt with typ := none } | none => rt
-      let src := e.text
-      let isTuple := match e with | .code _ t => t | _ => false
-      let d : DVal :=
-        if isTuple && (!startsWith src "(" || !endsWith src ")") then .val (.str ("(" ++ src ++ ")"))
-        else match getValue e with
-          | .val d => .val d
-          | .node _ => .val (.str ("```" ++ src ++ "```"))
-      some { rt with default := some d }
+    | some e => some { (dropPlainTyp (returns.getD {})) with default := some (returnDefault e) }
     | none => returns
   match annot with
   | some t => some { (returns.getD {}) with typ := some t }
@@ -234,6 +239,12 @@ def foundTypeOf (args : List Arg) : String :=
   match args with
   | a :: _ => if a.name == "self" || a.name == "cls" then a.name else "static"
   | [] => "static"
+
+/-- the last step of `function`: `_set_name_and_type` on the return entry, when there is one -/
+def fnRetStep (env : Env) (inferType : Bool) (r? : Option Param) : Except String (Option Param) :=
+  match r? with
+  | some r => (do let (_, r') ← setNameAndType env inferType ("return_type", r); pure (some r'))
+  | none => pure none
 
 def parseFunction (env : Env) (inferType : Bool) (t : Top) : Except String IR := do
   let .fn fname args body annot := t | .error "AssertionError"
@@ -247,10 +258,7 @@ def parseFunction (env : Env) (inferType : Bool) (t : Top) : Except String IR :=
   -- `ir_merge(target=docstring IR, other={"params": sig, "returns": None})`
   let params := if ir0.params.isEmpty then sig else if sig.isEmpty then ir0.params else mergeParams sig ir0.params
   let params ← params.mapM (setNameAndType env inferType)
-  let returns := interpolateReturn rest annot ir0.returns
-  let returns ← match returns with
-    | some r => (do let (_, r') ← setNameAndType env inferType ("return_type", r); pure (some r'))
-    | none => pure none
+  let returns ← fnRetStep env inferType (interpolateReturn rest annot ir0.returns)
   pure { name := some fname, type := some foundType, doc := ir0.doc, params := params, returns := returns }
 
 /-! ## argparse -/
